@@ -22,6 +22,17 @@ CHECKS["C02"] = dict(engine="E2-stateright + E3-bounded-exhaustive",
    note="Trusted: PushState's derived PartialEq; states above their maximum (only producible through stack_mut().set_max_stack_size) are outside the property and not explored.",
    design="4/C02")
 
+CHECKS["C03"] = dict(engine="E3-bounded-exhaustive",
+   technique="bounded-exhaustive enumeration of growth programs x capacities x step limits, each run on the real interpreter in a watched child process, with intrinsic bounds and PushRef admissibility as oracles",
+   text="All genomes up to 4 (thorough 5) genes over a 16-gene growth alphabet (DupBlock, exec Dup/Swap/Flush/StackDepth, IfElse, When, Close, literal pushes, int Dup/StackDepth, Multiply, Square, Power, PrintString) under 26 capacity configurations (0..4 globally and per stack, roomy) and every step limit 0..10 (0..20). Every run must return (a hang or process death is reported as a violation), keep every stack <= its maximum, execute at most `limit` print instructions, return the input unchanged at limit 0, and end with an error iff the reference says a push exceeds a capacity, with the final/carried state among those the reference admits.",
+   note="Trusted: PushRef and tolerance sets; unbounded nesting depth is a resource limit beyond any enumerable bound (depth-2000 smoke run only).",
+   design="4/C03")
+CHECKS["C05"] = dict(engine="E3-bounded-exhaustive",
+   technique="bounded-exhaustive enumeration of all gene sequences up to length N, differential against a non-recursive reference parser plus reference-free structural checks",
+   text="All 6^0+...+6^7 (thorough 6^10) gene sequences over {Close, literal, DupBlock, When, Unless, IfElse} are converted by the real From<Plushy>; the tree must equal PlushyRef's, its depth-first reading must equal the genome with closes removed, and every opener must be followed by exactly its number of blocks with no block elsewhere; never a panic.",
+   note="Trusted: PlushyRef (explicit stack of open blocks); instruction identity is irrelevant beyond its number of opens.",
+   design="4/C05")
+
 PLANNED = {}
 
 def main():
